@@ -41,7 +41,7 @@ Definition e_names (p : list Z) : list Z := Z.of_nat (length p) :: p.
 Definition e_dims (d : list nat) : list Z := Z.of_nat (length d) :: map Z.of_nat d.
 Definition e_member (m : member) : list Z :=
   match m with
-  | Port f sh i d => [0; e_flow f; width sh; b2l (sgn sh); i] ++ e_dims d
+  | Port f sh i d => [0; e_flow f; width sh; b2l (sgn sh); norm sh i] ++ e_dims d   (* _init_as_const.value *)
   | Iface f _ _ d => [1; e_flow f] ++ e_dims d
   end.
 Definition e_entry (e : entry) : list Z := e_names (fst e) ++ e_member (snd e).
